@@ -23,6 +23,8 @@ pub struct Leaf {
     pub s: String,
     #[serde(default)]
     pub ew: usize,
+    #[serde(default)]
+    pub sq: String,
 }
 
 #[derive(Debug, Clone, Copy, Default)]
@@ -243,6 +245,23 @@ pub fn noise(leaves: &[Leaf], lo: &Located, msg: &mut [u8], rng: &mut Rng) {
     }
 }
 
+/// Sequence-number mutations: the value is `base + offset` in the field's own modulus, where `base` is the endpoint's
+/// current value of that sequence space (or the genuine message's own value when the endpoint does not say).
+pub fn seq_value(leaf: &Leaf, loc: Loc, msg: &[u8], m: &str, base: Option<u64>) -> Option<u64> {
+    let mx = max_val(leaf, loc);
+    let bits = 64 - mx.leading_zeros();
+    let b = base.unwrap_or_else(|| get_val(msg, leaf, loc)) & mx;
+    let off: u64 = match m {
+        "seq_m1" => mx, // -1
+        "seq_p1" => 1,
+        "seq_p2" => 2,
+        "seq_p32768" => 32768,
+        "seq_half" => (1u64 << (bits - 1)) - 1,
+        _ => return None,
+    };
+    Some(b.wrapping_add(off) & mx)
+}
+
 /// Size "duplicate until full" aims at (just under 64 KiB). Halved by the harness when it checks how cost scales.
 pub static FILL: std::sync::atomic::AtomicUsize = std::sync::atomic::AtomicUsize::new(60_000);
 fn fill_target() -> usize {
@@ -314,6 +333,15 @@ pub fn mutate(leaves: &[Leaf], lo: &Located, msg: &[u8], i: usize, m: &str) -> O
                 _ => mx,
             };
             if v == cur {
+                return None;
+            }
+            let mut out = msg.to_vec();
+            set_val(&mut out, leaf, loc, v);
+            Some(out)
+        }
+        m if m.starts_with("seq_") => {
+            let v = seq_value(leaf, loc, msg, m, None)?;
+            if loc.w == 0 {
                 return None;
             }
             let mut out = msg.to_vec();
